@@ -601,3 +601,90 @@ func (call *Call) ReturnedAt() time.Time {
 	defer call.mu.Unlock()
 	return call.retAt
 }
+
+// NewConfigUnrecorded creates a further configuration on the manager without
+// storing it in the client (safe to call concurrently; used by C15).
+func (c *Client) NewConfigUnrecorded(servers []int, viaList bool) error {
+	return c.NewConfigUnrecordedWithNew(servers, viaList, false)
+}
+
+var extraNode uint32
+
+// NewConfigUnrecordedWithNew is NewConfigUnrecorded that optionally registers
+// one more (unreachable) node with the manager, as a growing deployment would.
+func (c *Client) NewConfigUnrecordedWithNew(servers []int, viaList, addNode bool) error {
+	if addNode {
+		k := atomic.AddUint32(&extraNode, 1)
+		addr := fmt.Sprintf("127.0.0.1:%d", 20000+k%40000)
+		var nopt gorums.NodeListOption
+		if c.Opts.ListIDs {
+			nopt = gorums.WithNodeList([]string{addr})
+		} else {
+			// ids below and above the existing ones, so that the pool has to be re-sorted
+			id := uint32(1000 + k)
+			if k%2 == 0 {
+				id = 0x80000000 - k
+			}
+			nopt = gorums.WithNodeMap(map[string]uint32{addr: id})
+		}
+		if _, err := c.Mgr.NewConfiguration(&qspec{c}, c.Configs[0].WithNewNodes(nopt)); err != nil {
+			return err
+		}
+	}
+	var opt gorums.NodeListOption
+	if viaList {
+		addrs := make([]string, len(servers))
+		for i, s := range servers {
+			addrs[i] = Addr(s)
+		}
+		if c.Opts.ListIDs {
+			opt = gorums.WithNodeList(addrs)
+		} else {
+			m := map[string]uint32{}
+			for _, s := range servers {
+				m[Addr(s)] = c.IDs[s]
+			}
+			opt = gorums.WithNodeMap(m)
+		}
+	} else {
+		ids := make([]uint32, len(servers))
+		for i, s := range servers {
+			ids[i] = c.IDs[s]
+		}
+		opt = gorums.WithNodeIDs(ids)
+	}
+	cfg, err := c.Mgr.NewConfiguration(&qspec{c}, opt)
+	if err != nil {
+		return err
+	}
+	// derived configurations, as a user would build them
+	if len(servers) > 1 {
+		_, _ = c.Mgr.NewConfiguration(&qspec{c}, cfg.WithoutNodes(c.IDs[servers[0]]))
+		_, _ = c.Mgr.NewConfiguration(&qspec{c}, cfg.And(c.Configs[0]))
+	}
+	return nil
+}
+
+// ReadTopology reads the manager's and configurations' node lists the way a
+// monitoring goroutine would (used by C15).
+func (c *Client) ReadTopology() int {
+	sum := 0
+	for _, n := range c.Mgr.Nodes() {
+		sum += int(n.ID()) + len(n.Address()) + len(n.Host()) + len(n.Port())
+		_ = n.LastErr()
+		_ = n.Latency()
+	}
+	for _, id := range c.Mgr.NodeIDs() {
+		if n, ok := c.Mgr.Node(id); ok {
+			sum += int(n.ID())
+		}
+	}
+	sum += c.Mgr.Size()
+	for _, cfg := range c.Configs {
+		sum += cfg.Size() + len(cfg.NodeIDs())
+		for _, n := range cfg.Nodes() {
+			sum += int(n.ID())
+		}
+	}
+	return sum
+}
